@@ -421,7 +421,11 @@ func callSSA(p *Path, caller *frame, callpos token.Pos, fn *ssa.Function, args [
 	if fn.Parent() == nil {
 		info := p.eng.funcInfo(fn)
 		if info.intercept != "" {
-			if target := p.h.Pkg.Func(info.intercept); target != nil && target != fn {
+			target := p.h.Pkg.Func(info.intercept)
+			if target == nil && fn.Pkg != nil {
+				target = fn.Pkg.Func(info.intercept) // the model may live in the callee's own package (unexported types)
+			}
+			if target != nil && target != fn {
 				p.noteModel(fn)
 				return callSSA(p, caller, callpos, target, args, nil)
 			}
